@@ -119,6 +119,8 @@ type EndCfg struct {
 	EMS          bool     `json:"ems,omitempty"`
 	SkipVerify   bool     `json:"skip_verify,omitempty"` // client: InsecureSkipVerify
 	SigHashes    []uint16 `json:"sig_hashes,omitempty"`  // client: Config.SignatureAndHashes as hash<<8|signature
+	ForceTicket  bool     `json:"force_ticket,omitempty"` // client: Config.ForceSessionTicketExt
+	SCTExt       bool     `json:"sct_ext,omitempty"`      // client: Config.SignedCertificateTimestampExt
 }
 
 type NetCfg struct {
@@ -203,6 +205,8 @@ func clientConfig(e EndCfg, s *kit.Sim, rng *kit.Rng) *tls.Config {
 		Time:                        s.Now,
 	}
 	c.InsecureSkipVerify = e.SkipVerify
+	c.ForceSessionTicketExt = e.ForceTicket
+	c.SignedCertificateTimestampExt = e.SCTExt
 	for _, sh := range e.SigHashes {
 		c.SignatureAndHashes = append(c.SignatureAndHashes, tls.SigAndHash{Signature: uint8(sh), Hash: uint8(sh >> 8)})
 	}
